@@ -52,6 +52,7 @@ SIG_SINGLE = "compare:poly-single-position-phantom-switches"
 SIG_MAV = "compare:diploid-multiallelic-complement-crash"
 SIG_TRIPLE_POLY = "compare:polyploid-triple-assertion"
 SIG_MULTIWAY = "compare:multiway-no-all-agree-assertion"
+SIG_PAIRDEF = "compare:pair-report-differs-from-two-file-definitions"
 NONE_BID = -999999   # stands for block_id None (phased call with PS '.')
 
 HEADER = """From Coq Require Import List Bool Arith NArith ZArith.
@@ -190,12 +191,25 @@ DIP_SIG = {
 def check_diploid(ctx, pairs, label, shard=600):
     cases, raws = [], []
     for p0, p1 in dict.fromkeys(pairs):
-        t, raw = dip_case(p0, p1)
+        try:
+            t, raw = dip_case(p0, p1)
+        except Exception as ex:      # an exception of the implementation is an output, not a harness error
+            ctx.violation(f"compare:exception-{type(ex).__name__}", f"compare functions raise {ex!r} on h0={p0} h1={p1}",
+                          {"kind": "diploid", "p0": p0, "p1": p1})
+            ctx.count(("dip", p0, p1), nontrivial=True)
+            continue
         cases.append(t)
         raws.append(raw)
         ctx.count(("dip", p0, p1), nontrivial=(p0 != p1 and p0 != comp(p1)))
         ctx.tally(f"diploid.{label}.pairs")
         ctx.tally(f"diploid.len.{min(len(p0) // 10 * 10, 60) if len(p0) > 9 else len(p0)}")
+        d = sum(a != b for a, b in zip(p0, p1))
+        if 2 * d == len(p0) and p0:
+            ctx.tally("diploid.orientation_tie")
+        if d in (0, len(p0)):
+            ctx.tally("diploid.equal_or_complement")
+        nsw = sum((a == b) != (c == e) for a, b, c, e in zip(p0, p0[1:], p1, p1[1:]))
+        ctx.tally(f"diploid.switch_errors.{min(nsw, 4)}{'+' if nsw >= 4 else ''}")
     failing, errors = eval_checks("C11dip", HEADER, DIP_CHECKS, cases, shard=shard, timeout=1500)
     fail_on_errors(errors, "diploid")
     nviol = 0
@@ -257,7 +271,12 @@ def check_diploid_general(ctx, rng, count):
     for _ in range(count):
         n = rng.randint(0, 9)
         hs = ["".join(rng.choice("01") for _ in range(n)) for _ in range(4)]
-        e = C.compare_block(hs[:2], hs[2:])
+        try:
+            e = C.compare_block(hs[:2], hs[2:])
+        except Exception as ex:
+            ctx.violation(f"compare:exception-{type(ex).__name__}", f"compare_block raises {ex!r} on {hs[:2]} vs {hs[2:]}",
+                          {"kind": "dipgen", "haps": hs})
+            continue
         cases.append(term((B(hs[0]), B(hs[1]), B(hs[2]), B(hs[3]), pe_tuple(e))))
         raws.append((hs, repr(e)))
         ctx.count(("dipgen", tuple(hs)), nontrivial=n > 1)
@@ -389,12 +408,29 @@ def gen_poly(rng, count):
 def check_poly(ctx, blocks, label, shard=40):
     cases, raws = [], []
     for ph0, ph1 in blocks:
-        t, raw = poly_case(ph0, ph1)
+        try:
+            t, raw = poly_case(ph0, ph1)
+        except Exception as ex:
+            ctx.violation(f"compare:exception-{type(ex).__name__}", f"polyploid compare functions raise {ex!r} on phasing0={ph0} phasing1={ph1}",
+                          {"kind": "poly", "ph0": ph0, "ph1": ph1})
+            ctx.count(("poly", tuple(ph0), tuple(ph1)), nontrivial=True)
+            continue
         cases.append(t)
         raws.append(raw)
         ctx.count(("poly", tuple(ph0), tuple(ph1)), nontrivial=sorted(ph0) != sorted(ph1))
         ctx.tally(f"poly.{label}.blocks")
         ctx.tally(f"poly.ploidy.{len(ph0)}")
+        ctx.tally(f"poly.positions.{len(ph0[0])}")
+        if any("2" in h for h in ph0 + ph1):
+            ctx.tally("poly.allele_2")
+        if ph0 == ph1:
+            ctx.tally("poly.identical")
+        elif sorted(ph0) == sorted(ph1):
+            ctx.tally("poly.row_permuted")
+        if len(set(ph0)) < len(ph0) or len(set(ph1)) < len(ph1):
+            ctx.tally("poly.duplicate_haplotypes")
+        nm = sum(1 for i in range(len(ph0[0])) if sorted(h[i] for h in ph0) == sorted(h[i] for h in ph1))
+        ctx.tally("poly.matching_genotype_positions." + ("0" if nm == 0 else "1" if nm == 1 else "all" if nm == len(ph0[0]) else "some"))
     failing, errors = eval_checks("C11poly", HEADER, POLY_CHECKS, cases, shard=shard, timeout=1500)
     fail_on_errors(errors, "polyploid")
     def n_matched(r):
@@ -431,27 +467,41 @@ def check_poly(ctx, blocks, label, shard=40):
 # ====================================================================== (b) CLI
 VCF_HEAD = ("##fileformat=VCFv4.2\n"
             "##FORMAT=<ID=GT,Number=1,Type=String,Description=\"Genotype\">\n"
-            "##FORMAT=<ID=PS,Number=1,Type=Integer,Description=\"Phase set identifier\">\n")
+            "##FORMAT=<ID=PS,Number=1,Type=Integer,Description=\"Phase set identifier\">\n"
+            "##FORMAT=<ID=HP,Number=.,Type=String,Description=\"Phasing haplotype identifier\">\n")
 CHROMS = ["chrA", "chrB", "chrC"]
+# chromosome name pools in FILE order; several of them do not sort like their file order
+CHROM_POOLS = [["chrA", "chrB", "chrC"], ["chr2", "chr10", "chr1"], ["2", "10", "X"], ["scaffold_b", "scaffold_ab", "scaffold_a"]]
+DATASET_NAMES = ["z", "a", "ab", "a_b", "B", "file1", "file0", "x-y", "truth", "10", "9", "phased.vcf"]
+SAMPLE_NAMES = ["s1", "s2", "NA12878", "child", "mother", "S", "s", "sample", "HG002"]
 
 
 def write_vcf(path, f):
     with open(path, "w") as out:
         out.write(VCF_HEAD)
-        for c in CHROMS:
+        seen = []
+        for r in f["records"]:
+            if r["chrom"] not in seen:
+                seen.append(r["chrom"])
+        for c in seen:
             out.write(f"##contig=<ID={c},length=1000000>\n")
         out.write("#CHROM\tPOS\tID\tREF\tALT\tQUAL\tFILTER\tINFO\tFORMAT\t" + "\t".join(f["samples"]) + "\n")
         for r in f["records"]:
-            fmt = "GT:PS" if r["has_ps"] else "GT"
+            has_hp = r.get("has_hp", False)
+            fmt = "GT" + (":PS" if r["has_ps"] else "") + (":HP" if has_hp else "")
             calls = []
             for c in r["calls"]:
-                calls.append(c["gt"] + ((":" + ("." if c["ps"] is None else str(c["ps"]))) if r["has_ps"] else ""))
+                x = c["gt"]
+                if r["has_ps"]:
+                    x += ":" + ("." if c["ps"] is None else str(c["ps"]))
+                if has_hp:
+                    x += ":" + (",".join(c["hp"]) if c.get("hp") else ".")
+                calls.append(x)
             out.write("\t".join([r["chrom"], str(r["pos"]), ".", r["ref"], ",".join(r["alts"]) if r["alts"] else ".",
                                  ".", ".", ".", fmt] + calls) + "\n")
 
 
 def parse_gt(gt):
-    sep = "|" if "|" in gt else "/"
     al = tuple(None if x == "." else int(x) for x in gt.replace("|", "/").split("/"))
     return al, ("|" in gt)
 
@@ -477,7 +527,11 @@ def reader_view(f, chrom, sidx, only_snvs):
         al, phased = parse_gt(c["gt"])
         het = True if any(a is None for a in al) else not all(a == al[0] for a in al)
         phase = None
-        if phased and not all(a == al[0] for a in al):
+        if r.get("has_hp") and c.get("hp"):          # _extract_HP_phase
+            fields = [[int(x) for x in h.split("-")] for h in c["hp"]]
+            order = [x[1] - 1 for x in fields]
+            phase = (fields[0][0], tuple(al[order.index(i)] for i in range(len(order))))
+        elif phased and not all(a == al[0] for a in al):   # _extract_GT_PS_phase
             bid = (c["ps"] if c["ps"] is not None else NONE_BID) if r["has_ps"] else 0
             phase = (bid, al)
         if phase is not None and any(a is None for a in phase[1]):
@@ -507,44 +561,61 @@ def select_samples(sc):
 
 
 def simple_scenario(ploidy, gts_per_file, ps=7):
-    """one chromosome, one sample, one phase set per file; gts_per_file[f][i] = GT string of site i in file f"""
+    """one chromosome, one sample, one phase set per file; gts_per_file[f][i] = GT string of site i in file f
+    (None = no record for the site in that file)"""
     files = []
     for gts in gts_per_file:
         files.append(dict(samples=["s1"], records=[
-            dict(chrom="chrA", pos=100 * (i + 1), ref="A", alts=["C"], has_ps=True, calls=[dict(gt=g, ps=ps)])
-            for i, g in enumerate(gts)]))
+            dict(chrom="chrA", pos=100 * (i + 1), ref="A", alts=["C"], has_ps=True,
+                 calls=[dict(gt=g[0], ps=g[1]) if isinstance(g, tuple) else dict(gt=g, ps=ps)])
+            for i, g in enumerate(gts) if g is not None]))
     return dict(ploidy=ploidy, only_snvs=False, ignore_sample_name=False, sample=None, names=None, files=files)
+
+
+def disjoint_chrom_scenario():
+    sc = simple_scenario(2, [dip_gts("0101"), dip_gts("0110")])
+    for r in sc["files"][1]["records"]:
+        r["chrom"] = "chrB"
+    return sc
 
 
 def dip_gts(h):
     return [f"{c}|{1 - int(c)}" for c in h]
 
 
-def gen_scenario(rng, ploidy, nfiles, identical=False, mav=False):
+def gen_scenario(rng, ploidy, nfiles, identical=False, mav=False, targeted=False):
+    """targeted: files 0 and 1 are cleanly phased; every further file lacks / has homozygous / missing / unphased calls
+    at many sites (the pairwise report of files 0,1 must not depend on them)."""
     k = ploidy
-    chroms = CHROMS[:rng.choice([1, 1, 2, 3])] if not mav else CHROMS[:1]
-    smode = rng.choice(["single", "single", "multi", "shared", "ignore"]) if not mav else "single"
+    pool = rng.choice(CHROM_POOLS)
+    chroms = pool[:rng.choice([1, 1, 2, 3])] if not mav else pool[:1]
+    smode = rng.choice(["single", "single", "multi", "shared", "ignore", "ignore_same"]) if not mav else "single"
     clean = identical or mav
     p_switch, p_flip = (0.0, 0.0) if identical else (0.05, 0.03) if nfiles > 2 else (0.15, 0.08)
+    nm = rng.sample(SAMPLE_NAMES, nfiles + 2)
     if smode == "single":
-        samples = [["s1"]] * nfiles
+        samples = [[nm[0]]] * nfiles
         sample, ignore = None, False
     elif smode == "multi":
-        samples = [rng.sample(["s1", "s2"], 2) for _ in range(nfiles)]
-        sample, ignore = rng.choice(["s1", "s2"]), False
+        samples = [rng.sample(nm[:2], 2) for _ in range(nfiles)]
+        sample, ignore = rng.choice(nm[:2]), False
     elif smode == "shared":
-        samples = [rng.sample(["s1", f"x{i}"], 2) for i in range(nfiles)]
+        samples = [rng.sample([nm[0], nm[2 + i]], 2) for i in range(nfiles)]
         sample, ignore = None, False
+    elif smode == "ignore":
+        samples = [[nm[2 + i]] for i in range(nfiles)]
+        sample, ignore = None, True
     else:
-        samples = [[f"n{i}"] for i in range(nfiles)]
+        samples = [[nm[0]]] * nfiles
         sample, ignore = None, True
     sc = dict(ploidy=k, only_snvs=(rng.random() < 0.25 and not mav), ignore_sample_name=ignore, sample=sample,
-              names=(",".join(f"d{i}" for i in range(nfiles)) if rng.random() < 0.3 else None), files=[])
+              names=(",".join(rng.choice([rng.sample(DATASET_NAMES, nfiles), ["ab", "a", "abc", "a_b"][:nfiles],
+                                              ["file1", "file0", "file3", "file2"][:nfiles]])) if rng.random() < 0.4 else None), files=[])
     alph = [0, 1] if (k == 2 and not mav) or rng.random() < 0.7 else [0, 1, 2]
     # sites and a "true" phasing
     sites = []
     for c in chroms:
-        pos = rng.randint(1, 500)
+        pos = rng.choice([1, 1, rng.randint(2, 500)])
         for _ in range(rng.randint(3, 22) if not mav else rng.randint(3, 8)):
             x = rng.random()
             ref, alts = ("A", ["C"]) if x < 0.8 else ("AT", ["A"]) if x < 0.88 else ("G", ["GTT"]) if x < 0.94 else ("A", ["C", "G"])
@@ -558,17 +629,23 @@ def gen_scenario(rng, ploidy, nfiles, identical=False, mav=False):
             if mav and x < 0.5:
                 ref, alts, truth = "A", ["C", "G"], rng.choice([[1, 2], [2, 1], [0, 2]])
             sites.append(dict(chrom=c, pos=pos, ref=ref, alts=alts, truth=truth))
-            pos += rng.randint(1, 400)
+            pos += rng.choice([1, 1, rng.randint(2, 400)])
     for fi in range(nfiles):
-        drop_chrom = rng.choice(chroms) if (len(chroms) > 1 and rng.random() < 0.2) else None
+        degraded = targeted and fi >= 2
+        tclean = targeted and fi < 2
+        hp_mode = (not mav) and (not identical) and rng.random() < 0.12
+        drop_chrom = rng.choice(chroms) if (len(chroms) > 1 and rng.random() < 0.2 and not targeted) else None
         records = []
         nb = rng.randint(1, 4) if not mav else 1
-        ids = rng.sample([5, 17, 100, 2041, 33333, -4, 0, 77], nb)
+        ids = rng.sample([5, 17, 100, 2041, 33333, 0, 77] + ([] if hp_mode else [-4]), nb)
         contiguous = rng.random() < 0.65
         cur_block = {}
         perm_of = {}
-        for s in sites:
-            if s["chrom"] == drop_chrom or (rng.random() < 0.1 and not mav):
+        forder = list(chroms)
+        if rng.random() < 0.5:
+            rng.shuffle(forder)                      # chromosome groups in another order than in the other files
+        for s in sorted(sites, key=lambda s: forder.index(s["chrom"])):
+            if s["chrom"] == drop_chrom or (rng.random() < (0.25 if degraded else 0.1) and not mav and not tclean):
                 continue
             c = s["chrom"]
             if contiguous:
@@ -592,45 +669,52 @@ def gen_scenario(rng, ploidy, nfiles, identical=False, mav=False):
                 al[i], al[j] = al[j], al[i]
             if not identical and k > 2 and rng.random() < 0.06:      # different genotype
                 al[rng.randrange(k)] = rng.choice([a for a in alph if a <= len(s["alts"])])
-            has_ps = rng.random() > 0.06 or mav
+            has_ps = (rng.random() > 0.06 or mav) and not hp_mode
             calls = []
+            any_hp = False
             for si in range(len(samples[fi])):
                 x = rng.random()
+                if degraded and si == 0:
+                    x = rng.choice([0.5, 0.8, 0.88, 0.92, 0.97])
                 a = al if si == 0 else [rng.choice([a for a in alph if a <= len(s["alts"])]) for _ in range(k)]
                 ps = bid if (rng.random() > 0.04 or mav) else None
-                if x < 0.78 or clean:
-                    gt = "|".join(map(str, a))
+                hp = None
+                if x < 0.78 or clean or (tclean and si == 0):
+                    if hp_mode and len(set(a)) > 1:
+                        pi = list(range(k))
+                        rng.shuffle(pi)
+                        gt = "/".join(str(a[pi[j]]) for j in range(k))
+                        hp = [f"{bid}-{pi[j] + 1}" for j in range(k)]
+                        any_hp = True
+                    else:
+                        gt = ("/" if hp_mode else "|").join(map(str, a))
                 elif x < 0.86:
                     gt = "/".join(map(str, sorted(a)))
                 elif x < 0.91:
                     h = rng.choice([0, 1])
-                    gt = rng.choice("|/").join([str(h)] * k)
+                    gt = (rng.choice("|/") if not hp_mode else "/").join([str(h)] * k)
                 elif x < 0.94:
                     gt = "/".join(["."] * k)
                     ps = None
                 else:
                     b = list(map(str, a))
                     b[rng.randrange(k)] = "."
-                    gt = "|".join(b)
-                calls.append(dict(gt=gt, ps=ps))
-            # the column of the compared sample is the one named first in `samples[fi]` before shuffling: keep simple
-            records.append(dict(chrom=c, pos=s["pos"], ref=s["ref"], alts=list(s["alts"]), has_ps=has_ps, calls=calls))
+                    gt = ("/" if hp_mode else "|").join(b)
+                calls.append(dict(gt=gt, ps=ps, hp=hp))
+            records.append(dict(chrom=c, pos=s["pos"], ref=s["ref"], alts=list(s["alts"]), has_ps=has_ps, has_hp=any_hp, calls=calls))
             if rng.random() < 0.03 and not mav:     # duplicate position (second record is skipped by the reader)
-                records.append(dict(chrom=c, pos=s["pos"], ref="A", alts=["AGG"], has_ps=True,
-                                    calls=[dict(gt="|".join(["0"] * (k - 1) + ["1"]), ps=ids[0]) for _ in samples[fi]]))
+                records.append(dict(chrom=c, pos=s["pos"], ref="A", alts=["AGG"], has_ps=not hp_mode, has_hp=False,
+                                    calls=[dict(gt=("/" if hp_mode else "|").join(["0"] * (k - 1) + ["1"]), ps=ids[0], hp=None) for _ in samples[fi]]))
             if rng.random() < 0.02:     # record without ALT
-                records.append(dict(chrom=c, pos=s["pos"] + 0, ref="A", alts=[], has_ps=False,
-                                    calls=[dict(gt="/".join(["0"] * k), ps=None) for _ in samples[fi]]))
-        sc["files"].append(dict(samples=list(samples[fi]), records=records))
+                records.append(dict(chrom=c, pos=s["pos"] + 0, ref="A", alts=[], has_ps=False, has_hp=False,
+                                    calls=[dict(gt="/".join(["0"] * k), ps=None, hp=None) for _ in samples[fi]]))
+        sc["files"].append(dict(samples=list(samples[fi]), records=records, hp_mode=hp_mode))
     if identical:
         base = sc["files"][0]
-        for fi in range(1, nfiles):
-            sc["files"][fi] = dict(samples=list(samples[fi]), records=[dict(r, calls=[dict(c) for c in r["calls"]][:1] * len(samples[fi]))
-                                                                         for r in base["records"]])
-        sc["files"][0] = dict(samples=list(samples[0]), records=[dict(r, calls=[dict(c) for c in r["calls"]][:1] * len(samples[0]))
-                                                                  for r in base["records"]])
-    # make sure the compared sample's column carries the constructed phasing: it is column 0 by construction, so
-    # put the compared sample name first
+        for fi in range(nfiles):
+            sc["files"][fi] = dict(samples=list(samples[fi]), hp_mode=False,
+                                   records=[dict(r, calls=[dict(c) for c in r["calls"]][:1] * len(samples[fi])) for r in base["records"]])
+    # the constructed phasing is in column 0: put the compared sample's name there
     sidx, names = select_samples(sc)
     for f, i in zip(sc["files"], sidx):
         if i != 0:
@@ -639,26 +723,34 @@ def gen_scenario(rng, ploidy, nfiles, identical=False, mav=False):
 
 
 def relabel_scenario(rng, sc):
-    """Same phasing with the haplotypes of every phase set of one file listed in a different order."""
+    """Same phasing with the haplotypes of every phase set of one file (or of every file) listed in a different order."""
     import copy
     sc2 = copy.deepcopy(sc)
     k = sc["ploidy"]
-    fi = rng.randrange(len(sc2["files"]))
+    nf = len(sc2["files"])
+    which = list(range(nf)) if rng.random() < 0.3 else [rng.randrange(nf)]
     sidx, _ = select_samples(sc2)
-    perms = {}
-    for r in sc2["files"][fi]["records"]:
-        c = r["calls"][sidx[fi]]
-        if "|" not in c["gt"]:
-            continue
-        key = (r["chrom"], c["ps"] if r["has_ps"] else 0)
-        if key not in perms:
-            p = list(range(k))
-            while p == list(range(k)):
-                rng.shuffle(p)
-            perms[key] = p
-        al = c["gt"].split("|")
-        c["gt"] = "|".join(al[i] for i in perms[key])
-    return sc2, fi
+    for fi in which:
+        perms = {}
+        for r in sc2["files"][fi]["records"]:
+            c = r["calls"][sidx[fi]]
+            if c.get("hp"):
+                key = (r["chrom"], "hp", c["hp"][0].split("-")[0])
+            elif "|" in c["gt"]:
+                key = (r["chrom"], c["ps"] if r["has_ps"] else 0)
+            else:
+                continue
+            if key not in perms:
+                p = list(range(k))
+                while p == list(range(k)):
+                    rng.shuffle(p)
+                perms[key] = p
+            if c.get("hp"):      # haplotype h becomes haplotype perms[h]: rename the haplotype indices
+                c["hp"] = [f"{h.split('-')[0]}-{perms[key][int(h.split('-')[1]) - 1] + 1}" for h in c["hp"]]
+            else:
+                al = c["gt"].split("|")
+                c["gt"] = "|".join(al[i] for i in perms[key])
+    return sc2, which
 
 
 def cli_args(sc, files, outs):
@@ -697,7 +789,7 @@ def run_scenario(ctx, wd, tag, sc):
     for r in rd(outs["lb"])[1:]:
         res["lb"].setdefault((r[0], r[1], r[3]), []).append((int(r[4]), int(r[5])))
     res["bed"] = [(r[0], int(r[1]), int(r[2]), r[3]) for r in rd(outs["bed"])]
-    res["mw"] = [(r[1], r[2], r[3], int(r[4])) for r in rd(outs["mw"])[1:]]
+    res["mw"] = [(r[1], r[2], r[3], int(r[4]), r[0]) for r in rd(outs["mw"])[1:]]
     return res
 
 
@@ -761,6 +853,12 @@ CLI2_CHECKS = {
     "L1_agreement": CLI2_LET + "Nat.eqb (zeros lagree) (pe_hamming (pe5 lb))",
     "L1_agreement_shape": CLI2_LET + "Nat.eqb (length lagree) (length lpos) && "
                                      "(Nat.eqb (length lpos) 0 || Nat.eqb (length lpos) (S lpairs))",
+    # L1: the row of a pair equals the definitions evaluated on the two files of the pair only
+    "L1_pair_definition": CLI2_LET + "let '(sb, sv, sp, ssw, sham, smx, smax) := pair_spec t0 t1 in "
+                          "Nat.eqb nb sb && Nat.eqb nv sv && Nat.eqb pairs sp && Nat.eqb (pe_switches (pe5 tot)) ssw && "
+                          "Nat.eqb (pe_hamming (pe5 tot)) sham && Nat.eqb (pe_diff (pe5 tot)) 0 && Nat.eqb lpairs (smx - 1) && "
+                          "(if Nat.eqb smx 0 then pe_eqb (pe5 lb) pe_zero else "
+                          "existsb (fun x => Nat.eqb (fst x) (pe_switches (pe5 lb)) && Nat.eqb (snd x) (pe_hamming (pe5 lb))) smax)",
     # L2: every column = model
     "L2_row": CLI2_LET + "match compare2 t0 t1 with (nb', nv', Some s) => "
               "Nat.eqb nb nb' && Nat.eqb nv nv' && Nat.eqb pairs (ps_pairs s) && pe_eqb (pe5 tot) (ps_total s) && "
@@ -775,6 +873,11 @@ CLIP_LET = ("fun c : (nat * list pcall * list pcall * (nat * nat * nat) * " + PT
             "let '(tsw, tham, tsfs, tsff, tdiff) := tot in let '(lsw, lham, lsfs, lsff, ldiff) := lb in "
             "let '(nb', nv', s) := compare2_poly k t0 t1 in ")
 CLIP_CHECKS = {
+    "L1_pair_definition": CLIP_LET + "let '(sb, sv, sp, ssw, sham, scost, sdiff, smx, smax) := pair_spec_poly k t0 t1 in "
+                          "Nat.eqb nb sb && Nat.eqb nv sv && Nat.eqb pairs sp && N.eqb tsw ssw && N.eqb tham sham && "
+                          "N.eqb (tsfs + tsff) scost && Nat.eqb tdiff sdiff && Nat.eqb lpairs (smx - 1) && "
+                          "(if Nat.eqb smx 0 then N.eqb lsw 0 && N.eqb lham 0 && N.eqb (lsfs + lsff) 0 && Nat.eqb ldiff 0 else "
+                          "existsb (fun x => let '(a, b, c0, d) := x in N.eqb a lsw && N.eqb b lham && N.eqb c0 (lsfs + lsff) && Nat.eqb d ldiff) smax)",
     "L2_row": CLIP_LET + "Nat.eqb nb nb' && Nat.eqb nv nv' && Nat.eqb pairs (pps_pairs s) && N.eqb tsw (pps_switches s) && "
               "N.eqb tham (pps_hamming s) && N.eqb (tsfs + tsff) (pps_sf_cost s) && Nat.eqb tdiff (pps_diff s) && "
               "Nat.eqb lpairs (pps_longest s - 1) && N.eqb lsw (ppe_switches_num (pps_longest_err s)) && "
@@ -829,7 +932,15 @@ def check_cli(ctx, scenarios, label):
         replay = {"kind": "cli", "scenario": sc}
         ctx.tally(f"cli.{label}.runs")
         ctx.tally(f"cli.ploidy.{k}.files.{n}")
+        scenario_tallies(ctx, item, views, dnames)
         nontrivial = False
+        if item["kind"] == "reject":         # malformed stream: only the error class is compared
+            ctx.count(("cli", label, si, "reject"), nontrivial=False)
+            ctx.tally("cli.reject.runs")
+            if res["rc"] == 0 or "Traceback" in res["stderr"]:
+                ctx.violation("compare:ploidy-mismatch-not-rejected", f"--ploidy {k} on files of another ploidy is not rejected with a "
+                              f"whatshap error (rc={res['rc']}): {res['stderr'][-300:]}", replay)
+            continue
         # ---- crash classes
         if res["rc"] != 0:
             se = res["stderr"]
@@ -906,8 +1017,11 @@ def check_cli(ctx, scenarios, label):
                     run_summary[(c, i, j)] = summ
             if n > 2 and k == 2:
                 mw = [m for m in res["mw"] if m[0] == c]
+                exp_mw_sample = "_".join(sorted(set(snames))) if sc["ignore_sample_name"] else snames[0]
+                if any(m[4] != exp_mw_sample for m in mw):
+                    ctx.violation("compare:tsv-meta", f"--tsv-multiway sample column {[m[4] for m in mw][:1]} != {exp_mw_sample}", replay)
                 hist = []
-                for _, l0, l1, cnt in mw:
+                for _, l0, l1, cnt, _ in mw:
                     left = set(l0.strip("{}").split(",")) - {""}
                     hist.append((bools([d not in left for d in dnames]), Nat(cnt)))
                 total = sum(m[3] for m in mw)
@@ -929,7 +1043,13 @@ def check_cli(ctx, scenarios, label):
     fm, em = eval_checks("C11climw", HEADER, MW_CHECKS, casesmw, shard=40) if casesmw else ({k: [] for k in MW_CHECKS}, [])
     fail_on_errors(em, "cli multiway")
     sigs = {"L1_sf_identity": "compare:switchflip-identity", "L1_bed_count": "compare:bed-count", "L1_agreement": SIG_F1,
-            "L1_agreement_shape": "compare:longest-block-shape"}
+            "L1_agreement_shape": "compare:longest-block-shape", "L1_pair_definition": SIG_PAIRDEF}
+    for i in fp["L1_pair_definition"][:4]:
+        si, c, a, b, row = metap[i]
+        ctx.violation(SIG_PAIRDEF, f"L1_pair_definition fails on CLI output (ploidy {scenarios[si]['sc']['ploidy']}, {len(scenarios[si]['sc']['files'])} files): "
+                                   f"chromosome {c} files {a},{b}: the row is not what the definitions give on these two files alone: "
+                                   f"{ {x: row[x] for x in row if 'rate' not in x and 'file_name' not in x} }",
+                      {"kind": "cli", "scenario": scenarios[si]["sc"]})
     for lab, sig in sigs.items():
         for i in f2[lab][:4]:
             si, c, a, b, row, lbv, bed = meta2[i]
@@ -1017,15 +1137,114 @@ def search_cli_l2(ctx, l2):
 def gen_cli_batch(rng, nruns, offset=0):
     items = []
     for r in range(nruns):
-        x = r % 10
-        k = 2 if x < 6 else 3 if x < 8 else 4
-        n = 3 if (k == 2 and x in (2, 5)) else 2
-        kind = "identical" if x == 4 else "plain"
-        sc = gen_scenario(rng, k, n, identical=(kind == "identical"))
-        items.append(dict(sc=sc, kind=kind, relabel_of=None))
+        k = rng.choice([2, 2, 2, 2, 3, 3, 4])
+        n = rng.choice([2, 2, 2, 3, 3, 4])
+        x = rng.random()
+        kind = "identical" if x < 0.1 else "plain"
+        targeted = n > 2 and x > 0.6
+        sc = gen_scenario(rng, k, n, identical=(kind == "identical"), targeted=targeted)
+        items.append(dict(sc=sc, kind=kind, relabel_of=None, targeted=targeted))
         sc2, fi = relabel_scenario(rng, sc)
-        items.append(dict(sc=sc2, kind=kind, relabel_of=offset + len(items) - 1, relabel_file=fi))
+        items.append(dict(sc=sc2, kind=kind, relabel_of=offset + len(items) - 1, relabel_file=fi, targeted=targeted))
     return items
+
+
+def scenario_tallies(ctx, item, views, dnames):
+    """input-distribution counters of one CLI scenario (what the generator actually produced)"""
+    sc = item["sc"]
+    n, k = len(sc["files"]), sc["ploidy"]
+    t = ctx.tally
+    t(f"cli.nfiles.{n}")
+    t(f"cli.ploidy.{k}")
+    t(f"cli.kind.{item['kind']}" + (".relabelled" if item.get("relabel_of") is not None else ""))
+    if item.get("relabel_of") is not None:
+        t("cli.relabel.files." + ("all" if len(item.get("relabel_file") or []) > 1 else "one"))
+    if item.get("targeted"):
+        t("cli.multifile.targeted_runs")
+    for o in ("only_snvs", "ignore_sample_name", "sample", "names"):
+        if sc[o]:
+            t(f"cli.opt.{o}")
+    if dnames != sorted(dnames):
+        t("cli.names.sort_against_file_order")
+    if any(a != b and (a.startswith(b) or b.startswith(a)) for a in dnames for b in dnames):
+        t("cli.names.share_prefix")
+    t(f"cli.samples_per_file.{max(len(f['samples']) for f in sc['files'])}")
+    if len({tuple(f["samples"]) for f in sc["files"]}) > 1:
+        t("cli.samples.differ_between_files")
+    orders = []
+    for f in sc["files"]:
+        o = []
+        for r in f["records"]:
+            if r["chrom"] not in o:
+                o.append(r["chrom"])
+        orders.append(o)
+        if o != sorted(o):
+            t("cli.chrom_order.file_not_sorted")
+        if f.get("hp_mode"):
+            t("cli.file.hp_tags")
+        for r in f["records"]:
+            if not r["alts"]:
+                t("cli.record.no_alt")
+            elif len(r["alts"]) > 1:
+                t("cli.record.multi_alt")
+            elif len(r["ref"]) != 1 or len(r["alts"][0]) != 1:
+                t("cli.record.indel")
+            if not r["has_ps"] and not r.get("has_hp"):
+                t("cli.record.format_without_ps")
+        pp = [(r["chrom"], r["pos"]) for r in f["records"]]
+        t("cli.record.duplicate_position", len(pp) - len(set(pp)))
+        t("cli.record.adjacent_positions", sum(1 for a, b in zip(pp, pp[1:]) if a[0] == b[0] and b[1] == a[1] + 1))
+        t("cli.record.position_1", sum(1 for a in pp if a[1] == 1))
+    if len({tuple(o) for o in orders}) > 1:
+        t("cli.chrom_order.differs_between_files")
+    t(f"cli.common_chromosomes.{min(len(views), 3)}")
+    sidx, _ = select_samples(sc)
+    for f, si in zip(sc["files"], sidx):
+        for r in f["records"]:
+            c = r["calls"][si]
+            g = c["gt"]
+            al, ph = parse_gt(g)
+            kindc = ("hp_phased" if c.get("hp") else "missing" if all(a is None for a in al) else "half_missing" if None in al
+                     else "hom" if len(set(al)) == 1 else "phased" if ph else "unphased")
+            t(f"cli.call.{kindc}")
+            if ph and r["has_ps"] and c["ps"] is None:
+                t("cli.call.phased_ps_missing")
+            if ph and c["ps"] is not None and c["ps"] < 0:
+                t("cli.call.negative_ps")
+    for c, vs in views.items():
+        for i in range(n):
+            for j in range(i + 1, n):
+                blocks = py_pair_structure(vs[i], vs[j])
+                big = [b for b in blocks if len(b) >= 2]
+                t(f"cli.pair.joint_blocks.{min(len(big), 3)}{'+' if len(big) >= 3 else ''}")
+                t("cli.pair.singleton_joint_blocks", sum(1 for b in blocks if len(b) == 1))
+                t("cli.pair.blocks_of_length_2", sum(1 for b in big if len(b) == 2))
+                if big:
+                    mx = max(len(b) for b in big)
+                    if sum(1 for b in big if len(b) == mx) > 1:
+                        t("cli.pair.longest_block_tie")
+                    spans = sorted((b[0][0], b[-1][0]) for b in big)
+                    if any(x[1] > y[0] for x, y in zip(spans, spans[1:])):
+                        t("cli.pair.interleaved_joint_blocks")
+                for m in range(n):
+                    if m in (i, j):
+                        continue
+                    hetm = {(d["pos0"], d["key"]) for d in vs[m] if d["het"]}
+                    phm = {(d["pos0"], d["key"]) for d in vs[m] if d["phase"] is not None}
+                    t("cli.multifile.pair_block_variant_not_het_in_other_file", sum(1 for b in big for v in b if v not in hetm))
+                    t("cli.multifile.pair_block_variant_unphased_in_other_file", sum(1 for b in big for v in b if v in hetm and v not in phm))
+
+
+def py_pair_structure(v0, v1):
+    """search/tally helper: joint blocks of two reader views as lists of (pos0, key), in position order"""
+    idx1 = {(c["pos0"], c["key"]): c for c in v1}
+    groups = {}
+    for c in v0:
+        d = idx1.get((c["pos0"], c["key"]))
+        if d is None or not c["het"] or not d["het"] or c["phase"] is None or d["phase"] is None:
+            continue
+        groups.setdefault((c["phase"][0], d["phase"][0]), []).append((c["pos0"], c["key"]))
+    return list(groups.values())
 
 
 # ====================================================================== driver
@@ -1046,6 +1265,23 @@ def corpus_cli():
         dict(sc=simple_scenario(3, [["0|1|1", "1|1|0"], ["0|1|1", "0|0|1"]]), kind="plain", relabel_of=None),         # one matching genotype
         dict(sc=simple_scenario(3, [["0|1|1", "1|0|1", "0|0|1", "1|1|0"], ["1|0|1", "0|1|1", "0|1|0", "1|0|1"]]), kind="plain", relabel_of=None),
         dict(sc=simple_scenario(2, [["0|1", "1|2", "0|1"], ["0|1", "2|1", "0|1"]]), kind="mav", relabel_of=None),       # allele 2
+        # a third / fourth file that is homozygous, missing, unphased or has no record where the pair is phased
+        dict(sc=simple_scenario(2, [dip_gts("00000"), dip_gts("00110"), ["0|1", "0|1", "1|1", "0|1", "0|1"]]), kind="plain", relabel_of=None),
+        dict(sc=simple_scenario(2, [dip_gts("00000"), dip_gts("01101"), ["0|1", None, "./.", "0/1", "0|1"]]), kind="plain", relabel_of=None),
+        dict(sc=simple_scenario(2, [dip_gts("000000"), dip_gts("010010"), ["0|1", "0|0", "0|1", "1|0", None, "0|1"],
+                                    [None, "0|1", "1/1", "0|1", "0|1", "0|1"]]), kind="plain", relabel_of=None),
+        dict(sc=simple_scenario(3, [["0|1|1", "1|0|1", "0|0|1", "1|1|0"], ["1|0|1", "0|1|1", "0|1|0", "1|0|1"],
+                                    ["0|1|1", "1|1|1", None, "1/0/1"]]), kind="plain", relabel_of=None),
+        # two joint blocks of equal (longest) length with different error counts: the first one is the largest block
+        dict(sc=simple_scenario(2, [[("0|1", 1), ("0|1", 1), ("0|1", 1), ("0|1", 9), ("0|1", 9), ("0|1", 9)],
+                                    [("0|1", 1), ("0|1", 1), ("0|1", 1), ("0|1", 9), ("1|0", 9), ("0|1", 9)]]), kind="plain", relabel_of=None),
+        dict(sc=simple_scenario(2, [[("0|1", 1), ("0|1", 9), ("0|1", 1), ("0|1", 9), ("0|1", 1), ("0|1", 9)],
+                                    [("0|1", 4), ("0|1", 4), ("1|0", 4), ("0|1", 4), ("0|1", 4), ("0|1", 4)]]), kind="plain", relabel_of=None),
+        # no chromosome in common: clean error expected
+        dict(sc=disjoint_chrom_scenario(), kind="plain", relabel_of=None),
+        # --ploidy does not fit the files: clean rejection expected
+        dict(sc=simple_scenario(3, [dip_gts("0101"), dip_gts("0110")]), kind="reject", relabel_of=None),
+        dict(sc=simple_scenario(2, [["0|1|1", "1|0|1"], ["0|1|1", "1|1|0"]]), kind="reject", relabel_of=None),
     ]
 
 
@@ -1097,6 +1333,9 @@ def replay(ctx, data):
     elif kind == "poly":
         _, l2 = check_poly(ctx, [(data["ph0"], data["ph1"])], "replay")
         report_l2(ctx, l2, "direct.poly.")
+    elif kind == "dipgen":
+        from whatshap.cli import compare as C
+        C.compare_block(data["haps"][:2], data["haps"][2:])
     elif kind == "cli":
         report_l2(ctx, search_cli_l2(ctx, check_cli(ctx, [dict(sc=data["scenario"], kind="plain", relabel_of=None)], "replay")), "")
     elif kind == "cli-relabel":
